@@ -288,6 +288,8 @@ class World:
                 end = time.monotonic() + instr[1] / 1000
                 while time.monotonic() < end:
                     pass
+            elif op in ("mark-begin", "mark-end"):
+                w.ev(pid, op)
             else:
                 return False
             return True
